@@ -29,6 +29,8 @@ def configs(ctx):
                         if fix in ("alpha", "alpha+gamma") and not double:
                             p["nmatch"] = 0
                         p["fix"] = fix
+                        if nta == 2 and rng.random() < 0.5:
+                            p["ta_reversed"] = True
                         if nta and not front and rng.random() < 0.4:
                             p["ta_on_ref"] = True
                         p["fix_var"] = float(rng.choice([0.0, 1e-12]))
